@@ -120,3 +120,56 @@ func runFCLShard(rn *runner, seed int64, count int) {
 		}
 	}
 }
+
+// ---------------------------------------------------------------------------------------
+// near-miss names derived from every defined flag name (both tiers)
+
+// derivedNames: names that a "helpful" parser might map onto the defined flag name; each is
+// undefined unless the flag set happens to define it (the reference parser knows).
+func derivedNames(name string) []string {
+	return []string{
+		"no-" + name, "no_" + name, "no" + name, "non-" + name, "not-" + name,
+		"with-" + name, "without-" + name, "enable-" + name, "disable-" + name, "un" + name,
+		name + "-", name + "_", name + ".", name + "=", name + "1", name + "0", name + "s",
+		"-" + name, // one dash too many in front
+		strings.ToUpper(name), strings.ToLower(name), strings.Title(name), caseFlip(name),
+		strings.ReplaceAll(name, "-", "_"), strings.ReplaceAll(name, "_", "-"), strings.ReplaceAll(name, "-", ""),
+		name[:len(name)-1], name + name, " " + name, name + " ",
+	}
+}
+
+// runNearMiss: for every defined flag and every derived name: bare, with =value and with a
+// separate value, with one and two dashes; alone, behind a valid flag, and followed by a tail.
+func runNearMiss(rn *runner, names []string, kinds []kind) {
+	firstBool := ""
+	for i, k := range kinds {
+		if k == kBool && names[i] != "help" {
+			firstBool = names[i]
+			break
+		}
+	}
+	for fi, name := range names {
+		val := goodValues[kinds[fi]][0]
+		for _, d := range derivedNames(name) {
+			if d == "" {
+				continue
+			}
+			for _, dash := range []string{"-", "--"} {
+				forms := [][]string{{dash + d}, {dash + d + "=" + val}, {dash + d, val}, {dash + d + "=false"}, {dash + d + "="}}
+				for _, f := range forms {
+					vs := [][]string{f, append(append([]string(nil), f...), "tail", "--")}
+					if firstBool != "" {
+						vs = append(vs, append([]string{"-" + firstBool}, f...))
+					}
+					vs = append(vs, append([]string{"-" + name + "=" + val}, f...))
+					for _, v := range vs {
+						rn.sum["nearmiss_vectors"]++
+						if !rn.exec(v) {
+							return
+						}
+					}
+				}
+			}
+		}
+	}
+}
